@@ -212,4 +212,41 @@ theorem expt_zero_neg (cfg : Cfg) {r : Int} (hr : r < 0) :
   have hnr : ¬ 0 ≤ r := by omega
   simp [expt, hnr]
 
+/-- 32-bit-ratio base, negative exponent, pinned `Ratio<i32>::pow` + `into_recip`, inside the guard. -/
+theorem expt_rat32_neg_partial (cfg : Cfg) {n d : Int}
+    (hx : Canonical (.rat32 n d)) {r : Int} (hr : r < 0) (hr32 : fitsI32 r = true)
+    (hg : RatPowGuard n d r = true) :
+    Exact (expt cfg (.rat32 n d) (.fix r)) ((denote (.rat32 n d) ^ r.natAbs)⁻¹) := by
+  by_cases hc : cfg.exptChecked = true
+  · exact expt_rat32_neg_checked cfg hc hx hr hr32
+  obtain ⟨hd, hgcd, _, _⟩ := hx
+  have hn0 := canonical_num_ne_zero hd hgcd
+  have hd0 : d ≠ 0 := by omega
+  have hchk : chk32 r = some r := by simp [chk32, hr32]
+  have hnr : ¬ 0 ≤ r := by omega
+  have hr0 : r ≠ 0 := by omega
+  simp only [RatPowGuard, Bool.and_eq_true, Bool.or_eq_true, decide_eq_true_eq, hnr, false_or,
+    bne_iff_ne, ne_eq] at hg
+  obtain ⟨⟨hfn, hfd⟩, hmin⟩ := hg
+  have hk1 : 1 ≤ r.natAbs := by omega
+  -- the powers form a canonical 32-bit ratio; the rest is the reciprocal of `/`
+  have hdk : 1 < d ^ r.natAbs := by
+    have h2 : (2 : Int) ^ r.natAbs ≤ d ^ r.natAbs := Int.pow_le_pow_left (by omega) (by omega) _
+    have h3 : (2 : Int) ^ 1 ≤ 2 ^ r.natAbs := Int.pow_le_pow_of_le_right (by omega) hk1
+    omega
+  have hcan : Canonical (.rat32 (n ^ r.natAbs) (d ^ r.natAbs)) :=
+    ⟨hdk, gcd_pow_pow hgcd _, hfn, hfd⟩
+  have hrec := recip_exact Cfg.pinned hcan (by simp) (Or.inr (by simpa [RecipGuard] using hmin))
+  have hb : (cfg.exptChecked) = false := by simpa using hc
+  simp only [expt, hchk, hb, Bool.false_eq_true, ↓reduceIte, denote, ratio32Pow, hr0, i32_ok hfn,
+    i32_ok hfd, Res.bind_ok, hr]
+  simp only [recip, Cfg.pinned, Bool.false_and, Bool.false_eq_true, ↓reduceIte, denote] at hrec
+  rw [← cast_pow_div hd0]
+  exact hrec
+
+/-- `0` to a positive bignum power is `0` in the repaired code. -/
+theorem expt_zero_big_checked (cfg : Cfg) (hc : cfg.exptChecked = true) {r : Int} (hr : 0 < r) :
+    expt cfg (.fix 0) (.big r) = .ok (.fix 0) := by
+  simp [expt, hc, hr]
+
 end SteelVerif.C10
